@@ -25,6 +25,7 @@ CONSTANTS Fam,        \* enabled generator actions (set of strings)
           TyNames,    \* sequence of type-name strings for `is`
           Prelude,    \* fixed leading statements (definitions the generated part can use)
           MaxD, MaxN, MaxStk, MaxStmts, MaxModStmts, MaxCtx, Ill0,
+          EnvNames,   \* sequence of environment variable names programs read (set and unset ones)
           RunVM,      \* TRUE: step the VM after Finish (machine mode); FALSE: stop at Finish
           Deviations, \* deviations the model-checked machine runs under ({} = the design)
           KnownDevs   \* recorded deviations of the code (known findings): used for the code-faithful prediction
@@ -89,7 +90,9 @@ Join(k, x) ==
      /\ Len(c.stk) - k + 1 <= MaxStk
      /\ v.t # "unm" /\ d <= MaxD /\ budget <= MaxN
      /\ fresh => ill > 0
-     /\ ill' = IF fresh THEN ill - 1 ELSE ill
+     (* when the last unit of the budget is spent, `ill` remembers (negated) the   *)
+     (* top-level statement in which the fault was planted (C17)                   *)
+     /\ ill' = IF fresh THEN (IF ill = 1 THEN 0 - (Len(prog) + 1) ELSE ill - 1) ELSE ill
      /\ SetCur([c EXCEPT !.stk = Append(SubSeq(@, 1, Len(@) - k), Term(x, v, d, n, cl))])
      /\ UNCHANGED << prog, phase, vm >>
 
@@ -111,6 +114,9 @@ MkLeakRef == On("leakref") /\ Building /\ Cur.kind = "top" /\
 (* inside a function body: a top-level name that is bound only later (or never) *)
 MkFwdRef == On("fwdref") /\ Building /\ Cur.kind = "func" /\
             \E j \in 1..Len(Names) : ~Bound(Cur.scope, Names[j]) /\ Join(0, Sym(Names[j]))
+
+(* the process environment (C18): env.NAME for set and unset names *)
+MkEnvRead == On("env") /\ Building /\ \E j \in 1..Len(EnvNames) : Join(0, Bin("dot", Sym(N_env), Sym(EnvNames[j])))
 
 (* ---- joins ---------------------------------------------------------------- *)
 MkBin == On("bin") /\ Building /\ Len(Stk) >= 2 /\
@@ -308,7 +314,8 @@ MkLetUse == On("letuse") /\ Building /\ Cur.kind = "top" /\ Len(Stk) = 1 /\ NGen
 
 (* rebinding an existing name / binding a reserved word (C10) *)
 MkBadLet == On("badlet") /\ Building /\ Cur.kind = "top" /\ Len(Stk) = 1 /\ NGen < MaxStmts /\
-            \E nm \in {Cur.scope[j].nm : j \in 1..Len(Cur.scope)} \cup (IF On("reserved") THEN Reserved ELSE {}) :
+            \E nm \in {Cur.scope[j].nm : j \in 1..Len(Cur.scope)} \cup (IF On("reserved") THEN Reserved ELSE {})
+                     \cup (IF On("envlet") THEN {N_env} ELSE {}) :
                /\ prog' = Append(prog, [s |-> "let", nm |-> nm, x |-> Cur.stk[1].x])
                /\ SetCur([Cur EXCEPT !.stk = << >>, !.cl = "dirty"])
                /\ phase' = "closing"
@@ -332,7 +339,7 @@ GenInit == /\ ctx = << Ctx("top", Run(Prelude).env, << >>, << >>, 0) >>
            /\ prog = Prelude /\ ill = Ill0 /\ phase = "gen"
            /\ vm = InitVM(<< >>, Deviations)
 
-GenNext == \/ PushLit \/ PushVar \/ MkOuterRef \/ MkLeakRef \/ MkFwdRef \/ MkBin \/ MkNot \/ MkTrace \/ MkFail \/ MkCast \/ MkIs \/ MkInName
+GenNext == \/ PushLit \/ PushVar \/ MkEnvRead \/ MkOuterRef \/ MkLeakRef \/ MkFwdRef \/ MkBin \/ MkNot \/ MkTrace \/ MkFail \/ MkCast \/ MkIs \/ MkInName
            \/ MkList \/ MkTuple \/ MkDotName \/ MkDotIdx \/ MkDotCall \/ MkDotCopy \/ MkRange \/ MkSelect \/ MkCall \/ MkBadCall
            \/ MkCopy \/ MkFmtList \/ MkFmtBad \/ MkFmtSingle \/ MkFop \/ OpenFunc \/ CloseFunc \/ OpenMod \/ CloseMod
            \/ MkLet \/ MkLetUse \/ MkBadLet \/ MkExprStmt \/ Finish \/ RunStep \/ RunEnd
@@ -341,11 +348,16 @@ GenNext == \/ PushLit \/ PushVar \/ MkOuterRef \/ MkLeakRef \/ MkFwdRef \/ MkBin
 Done == phase = "done"
 Final == IF RunVM THEN vm ELSE RunToEnd(vm, 4000)
 
+(* parse/mod.rs: a let statement may not bind `env` (the parser aborts) - such a *)
+(* program never reaches the translator                                         *)
+ParserRejects(p) == \E j \in 1..Len(p) : p[j].s = "let" /\ p[j].nm = N_env
+Compiled(m) == IF ParserRejects(prog) THEN [k |-> "fail"] ELSE VMOut(m)
+
 (* C01: executing the compiled form ends as the reference semantics says *)
 Expected == AbsOut(Run(prog))
 Agreement == Done => ((Final.res.k \notin {"unm", "fuel"} /\ Expected.k # "unm") =>
-                        \/ VMOut(Final) = Expected
-                        \/ ~PrintT(<< "DISAGREE", ToJson([prog |-> prog, expect |-> Expected, vm |-> VMOut(Final),
+                        \/ Compiled(Final) = Expected
+                        \/ ~PrintT(<< "DISAGREE", ToJson([prog |-> prog, expect |-> Expected, vm |-> Compiled(Final),
                                                           blame |-> IF Final.res.k = "fail" THEN << Final.res.p >> ELSE << >>]) >>))
 (* C04: no panic site is reachable; the main stack is empty at the end *)
 NoPanicAtEnd == Done => Final.res.k # "panic"
@@ -366,9 +378,11 @@ PrefixStable ==
 CodeRun(devs) == RunToEnd(InitVM(vm.code, devs), 4000)
 Emit == Done =>
   LET cf == CodeRun(KnownDevs)
-      hit == IF VMOut(cf) = Expected THEN {} ELSE {d \in KnownDevs : VMOut(CodeRun({d})) # Expected}
-  IN PrintT(<< "REPLAY", ToJson([prog |-> prog, expect |-> Expected, code |-> VMOut(cf),
+      hit == IF Compiled(cf) = Expected THEN {} ELSE {d \in KnownDevs : Compiled(CodeRun({d})) # Expected}
+  IN PrintT(<< "REPLAY", ToJson([prog |-> prog, expect |-> Expected, code |-> Compiled(cf),
                                  devs |-> SetToSeq(hit), clean |-> ctx[1].cl,
+                                 fault |-> IF ill < 0 THEN 0 - ill ELSE 0,
+                                 at |-> IF cf.res.k = "fail" THEN cf.res.at ELSE 0,
                                  prefix |-> [k \in 1..(Len(prog) - 1) |-> AbsOut(Run(SubSeq(prog, 1, k)))],
                                  ops |-> [j \in 1..Len(vm.code) |-> OpView(vm.code[j])],
                                  pos |-> [j \in 1..Len(vm.code) |-> vm.code[j].p],
